@@ -56,11 +56,11 @@ def cursor_post_processing(ctx: Ctx, rule: str) -> None:
                           "cursor advanced by the same height, unconditionally)")
         else:
             n_ok += 1
-    if len(loops) < 2 or n_ok < 2:
-        ctx.violation(rule, fi.short, f"cursor loops {n_ok}/2", fi.where(), "_apply_data_post_processing no longer re-slices pages (plain and group_by pass) by cumulative heights")
+    if n_ok < 1:
+        ctx.violation(rule, fi.short, f"cursor loops {n_ok}", fi.where(), "_apply_data_post_processing no longer re-slices the pages from the column-reduced frame by cumulative heights")
     srcs = [unparse(c.func.value) for lp in loops for c in ast.walk(lp) if isinstance(c, ast.Call) and isinstance(c.func, ast.Attribute) and c.func.attr == "slice"]
-    if srcs[:1] != ["processed_df"] or (len(srcs) > 1 and srcs[1] != "restored"):
-        ctx.violation(rule, fi.short, "slice sources " + str(srcs), fi.where(), "page data is not re-cut from the column-reduced frame / its group_by-restored version")
+    if srcs[:1] != ["processed_df"]:
+        ctx.violation(rule, fi.short, "slice sources " + str(srcs), fi.where(), "page data is not re-cut from the column-reduced frame")
 
 
 def cursor_render_body(ctx: Ctx, rule: str) -> None:
